@@ -48,6 +48,18 @@ STRENGTHENED = """Checks strengthened because a seeded change was missed (genera
   all be delivered (in order), not only "at most once".
 * **C08** `C08-s6f12-early-ack-then-abort` - a third of the well-formed bodies fill every open list of the catalogue structure
   with 1 or 2 members (before: the minimal tree, every open list empty, so an S6F11 never carried a report).
+* **C01** `C01-number-encode-cache-stale-after-setitem` - task `reuse`: an object that was already encoded is changed through
+  `set()`, the indexer or `decode()` and must then encode / report its current value.
+* **C05** `C05-select-transition-by-requester-thread` - the peer's first data message may travel in the same segment as its
+  Select.rsp (`answer_select` with `then_data`).
+* **C03** `C03-default-catalogue-list-shared` - task `isolation`: `StreamsFunctions.update` in one container must not change what
+  another default container, or the shipped catalogue list, finds under the same S/F numbers.
+
+One produced change was discarded instead of kept (`C20-second-link-resets-enabled`: linking a further report to an enabled
+collection event builds a fresh link object, which is disabled until the next S2F37): SEMI E5 itself says that linked event
+reports default to disabled upon linking, C12 deliberately mirrors the implementation on this point (section 4, C12), and the
+host API re-enables the event in the same call - the statement of C20 does not pin the flag in that window, so a check that
+reported it would over-reach.
 
 Sibling catches (a change to one property's anchored code seen by another check as well): `C20-report-values-shared-across-reports`
 by C12; `C05-source-check-outside-lock` by C18; the reversal of fix d663f2e by C05 and C09.
@@ -69,7 +81,7 @@ def main():
         strengthened += bool(v.get("check_strengthened"))
     body = f"""### 8.2 Independently seeded changes (`/verif/seeded/<name>/`)
 
-{len(rows)} changes (seven batches: 12 + 11 + 12 + 8 + 12 + 10 + 10) were written by fresh sub-agents that saw only the text of one property and a
+{len(rows)} changes (eight batches: 12 + 11 + 12 + 8 + 12 + 10 + 10 + 7) were written by fresh sub-agents that saw only the text of one property and a
 scratch worktree of /repo (nothing from /verif). Each has `patch.diff`, `demo.py` (fails with the change, passes without)
 and `meta.json` (what it needs to manifest, why the suite does not notice, what was run). Every one was confirmed here in a
 scratch worktree of /repo HEAD (`python -m vf.selftest.seeded confirm <name>`: demo exit 0 without / exit 1 with the patch,
